@@ -274,8 +274,8 @@ static void threads_generate(Plan* p, Rng* r) {
   for (int th = 0; th < nth; th++) {
     int nw = 1 + (int)rng_below(r, 4);
     for (int i = 0; i < nw; i++) {
-      if (rng_chance(r, 1, 3)) plan_add(p, T_MUTEX, th, 0, rng_below(r, 4), rng_below(r, 12), rng_below(r, NMTX), 0, 0, 0);
-      else plan_add(p, T_WORK, th, 0, rng_below(r, W_NKINDS), rng_below(r, 40), rng_below(r, 1000), 0, 0, 0);
+      if (rng_chance(r, 1, 3)) { int64_t u3 = rng_below(r, NMTX), u2 = rng_below(r, 12), u1 = rng_below(r, 4); plan_add(p, T_MUTEX, th, 0, u1, u2, u3, 0, 0, 0); }
+      else { int64_t w3 = rng_below(r, 1000), w2 = rng_below(r, 40), w1 = rng_below(r, W_NKINDS); plan_add(p, T_WORK, th, 0, w1, w2, w3, 0, 0, 0); }
     }
   }
 }
